@@ -17,8 +17,10 @@
 (* Pure-function events: a wrong one is marked bad and the cursor moves on; the  *)
 (* first clause it violates goes to VP:stages (register 4).  A record whose      *)
 (* RDATA lies outside the alphabet its RFC defines and fails is AMBIG: listed in *)
-(* VP:ambig (register 5), not bad.  An event whose `wire' is not one well-framed *)
-(* record is a harness bug: VP:ill (register 3).                                 *)
+(* VP:ambig (register 5), not bad; VP:outalpha (register 6) lists every event    *)
+(* outside its alphabet, failed or not (the driver needs it to judge what the    *)
+(* Go-side round trip of a random record saw).  An event whose `wire' is not one *)
+(* well-framed record is a harness bug: VP:ill (register 3).                     *)
 EXTENDS PresentRR, TraceBase
 
 VARIABLE l
@@ -29,9 +31,10 @@ Frame(e) == DecRRFrame(e.wire, 0)
 FrameOK(e) == LET fr == Frame(e) IN fr.ok /\ fr.next = Len(e.wire)
 
 Stage(e) ==
-  LET rr == Frame(e).rr IN
-  IF ~OnlyMasterSyntax(e.text) THEN "syntax"
-  ELSE LET r == ReadRecord(e.text, e.hk) IN
+  LET rr == Frame(e).rr
+      L  == Lex(e.text) IN
+  IF ~OnlyMasterSyntaxL(e.text, L) THEN "syntax"
+  ELSE LET r == ReadRecordL(L, e.hk) IN
     IF ~r.ok THEN "read-" \o r.why
     ELSE IF r.name # rr.name THEN "owner"
     ELSE IF r.ttl # rr.ttl THEN "ttl"
@@ -41,18 +44,30 @@ Stage(e) ==
     ELSE IF r.amb /\ rr.type \notin {64, 65} THEN "adjacent"
     ELSE "ok"
 
-Init == l = 1 /\ HWInit /\ TLCSet(3, <<>>) /\ TLCSet(4, <<>>) /\ TLCSet(5, <<>>)
+(* Negative probes (`neg' present): the harness' RFC 3597 rendering with a stated length one too large / too  *)
+(* small.  The reader refuses it (if not: harness bug); the library must have refused it too.                 *)
+IsNeg(e) == "neg" \in DOMAIN e
+NegStage(e) == IF ReadRecord(e.text, <<>>).ok THEN "ill" ELSE IF e.accepted THEN "generic-wrong-length-accepted" ELSE "ok"
+
+Init == l = 1 /\ HWInit /\ TLCSet(3, <<>>) /\ TLCSet(4, <<>>) /\ TLCSet(5, <<>>) /\ TLCSet(6, <<>>)
 Next == /\ l <= Len(Trace)
         /\ IF ~FrameOK(Ev) THEN TLCSet(3, Append(TLCGet(3), l))
-           ELSE LET st == Stage(Ev)  rr == Frame(Ev).rr IN
-                IF st = "ok" THEN TRUE
-                ELSE IF ~InAlphabet(rr.type, rr.rdata) THEN TLCSet(5, Append(TLCGet(5), <<l, st>>))
-                ELSE MarkBad(l) /\ TLCSet(4, Append(TLCGet(4), <<l, st>>))
+           ELSE IF IsNeg(Ev) THEN
+                (LET st == NegStage(Ev) IN
+                 IF st = "ok" THEN TRUE
+                 ELSE IF st = "ill" THEN TLCSet(3, Append(TLCGet(3), l))
+                 ELSE MarkBad(l) /\ TLCSet(4, Append(TLCGet(4), <<l, st>>)))
+           ELSE LET st == Stage(Ev)  rr == Frame(Ev).rr  inside == InAlphabet(rr.type, rr.rdata) IN
+                /\ IF inside THEN TRUE ELSE TLCSet(6, Append(TLCGet(6), l))
+                /\ IF st = "ok" THEN TRUE
+                   ELSE IF ~inside THEN TLCSet(5, Append(TLCGet(5), <<l, st>>))
+                   ELSE MarkBad(l) /\ TLCSet(4, Append(TLCGet(4), <<l, st>>))
         /\ HW(l)
         /\ l' = l + 1
 
 Accepted5 == /\ PrintT("VP:ill=" \o ToJson(TLCGet(3)))
              /\ PrintT("VP:stages=" \o ToJson(TLCGet(4)))
              /\ PrintT("VP:ambig=" \o ToJson(TLCGet(5)))
+             /\ PrintT("VP:outalpha=" \o ToJson(TLCGet(6)))
              /\ Accepted
 =============================================================================
